@@ -83,12 +83,14 @@ OtherOf(r) ==
   LET i == CHOOSE i \in 1..Len(SupRing) : SupRing[i] = r IN SupRing[(i % Len(SupRing)) + 1]
 Unsupported == SelectSeq(Ring, LAMBDA r : r \notin P.sup)
 
-FocusSet ==
-  CASE Family = "umask" -> {""}
-    [] Family = "calls" -> (IF Level = "quick" THEN {"n", "c", "f"} ELSE Resources) \cap P.sup
-    [] Family = "ulimit" ->
-         (IF Level = "quick" THEN (IF Sys = "real" THEN {"c", "l", "q", "n", "f"} ELSE {"c", "d", "f", "n", "t", "e", "k"})
-          ELSE Resources) \cap P.sup
+\* Every supported resource is a focus (so that the option letter, the unit
+\* and the kernel's number of every resource are bound in the initial state);
+\* the states below the initial one are explored for DeepFocus only.
+DeepFocus ==
+  IF Level # "quick" THEN Resources
+  ELSE IF Family = "calls" THEN {"n", "c", "f"}
+  ELSE IF Sys = "real" THEN {"c", "l", "q", "n", "f"} ELSE {"c", "d", "f", "n", "t", "e", "k"}
+FocusSet == IF Family = "umask" THEN {""} ELSE P.sup
 
 (***************************************************************************)
 (* The fan of the ulimit family.                                           *)
@@ -255,6 +257,7 @@ Init == foc \in FocusSet /\ S = InitState /\ w = <<>>
 
 Next ==
   /\ Len(w) < Depth
+  /\ (Family = "umask" \/ foc \in DeepFocus)
   /\ \E cmd \in Drivers :
        LET alts == StepAlts(S, cmd) IN
        /\ Cardinality(alts) = 1
